@@ -9,4 +9,15 @@ def run(res, args):
                        "the register list of the returned object is compared (reflect.DeepEqual) with GetRegisterListByProduct(id); that function is checked against its specification by C12"]
     apirun.standard(res, args, "C11", "C11", THEOREMS,
                     "Classes for C11: all 65536 device ids (exhaustive, every run) answering ping and id query; silent at ping, silent at the id "
-                    "query, malformed answers, write faults, async frames before the answers.")
+                    "query, malformed answers, write faults, async frames before the answers, text-protocol output of 100..5000 bytes before them.")
+    if res.broken and not res.violations:
+        # the object's register list is the code's own list for the id (compared in the run above); when the theorems about the
+        # tables no longer hold, name the device ids whose list is not the list of their product class
+        from lib import c12
+        before = len(res.violations)
+        c12.search(res)
+        for v in res.violations[before:]:
+            if isinstance(v.get("input"), dict) and "product_id" in v["input"]:
+                v["what"] = "connecting to device id %s yields an object whose register list is not the list defined for that product class" % v["input"]["product_id"]
+                v["key"] = "C11:list:%s" % v["input"]["product_id"]
+                v["replay"] = "vedirectapi.NewRegisterApi against a device answering the id %s" % v["input"]["product_id"]
